@@ -390,7 +390,7 @@ func (s *Sim) ready(t *Task) bool {
 	case wPipeRead:
 		return t.wpipe.readable(s.Now) || (t.wtime != 0 && t.wtime <= s.Now)
 	case wPipeWindow:
-		return t.wpipe.writable()
+		return t.wpipe.writable() || (t.wtime != 0 && t.wtime <= s.Now)
 	case wSleep:
 		return t.wtime <= s.Now
 	case wJoin:
@@ -399,6 +399,18 @@ func (s *Sim) ready(t *Task) bool {
 		return t.wflag.set
 	}
 	return false
+}
+
+// retime gives the tasks parked on pipe p (wait kind wk) a new deadline.
+//
+//go:norace
+func (s *Sim) retime(wk waitKind, p *Pipe, ns int64) {
+	for i := 0; i < s.ntasks; i++ {
+		t := s.tasks[i]
+		if t.state == tsBlocked && t.wk == wk && t.wpipe == p {
+			t.wtime = ns
+		}
+	}
 }
 
 // nextEventTime returns the earliest virtual time at which some blocked task
@@ -417,6 +429,10 @@ func (s *Sim) nextEventTime() int64 {
 		case wPipeRead:
 			c = t.wpipe.nextAt()
 			if t.wtime != 0 && (c < 0 || t.wtime < c) {
+				c = t.wtime
+			}
+		case wPipeWindow:
+			if t.wtime != 0 {
 				c = t.wtime
 			}
 		case wSleep:
